@@ -6,14 +6,14 @@ pub use crate::scheduler::verif_api::*;
 /// `TxDependency` with the committed cursor it reads in `key_tx`.
 pub struct TxDependencyV {
     dep: crate::tx_dependency::TxDependency,
-    committed: std::sync::atomic::AtomicUsize,
+    committed: super::atomic::AtomicUsize,
 }
 
 impl TxDependencyV {
     pub fn new(num_txs: usize) -> Self {
         Self {
             dep: crate::tx_dependency::TxDependency::new(num_txs),
-            committed: std::sync::atomic::AtomicUsize::new(0),
+            committed: super::atomic::AtomicUsize::new(0),
         }
     }
     pub fn next(&self) -> Option<usize> {
